@@ -286,26 +286,28 @@ theorem number_lines_round_trip (n : Int) : parseInt? (toDecInt n) = some n := p
 
 open Pyg.Umn in
 /-- one well-formed line has exactly its own field's effect on the entry being built -/
-theorem line_applies_its_field (base : Str) (fuel : Nat) (st : LinkState) (f : Field) (hf : f.Ok) (rest : List Str) :
+theorem line_applies_its_field (base : Str) (fuel : Nat) (st : LinkState) (f : Field) (hf : f.Ok) (rest : List Str)
+    (hc : ∀ v, f = .comment v → st.donePath = false) :
     getLinkItem base (fuel + 1) st ((f.text ++ [10]) :: rest) = getLinkItem base fuel (f.apply base st) rest :=
-  getLinkItem_field base fuel st f hf rest
+  getLinkItem_field base fuel st f hf rest hc
 
 open Pyg.Umn in
 /-- **the reader refines the block reading**: for every list of blocks of well-formed lines, reading
     the rendered file gives, in file order, the entry of each block that has a `Path=` — each block
     read from a fresh entry (no state crosses the blank line), with any fuel above the block count -/
 theorem linkfile_reader_refines_blocks (dirSel base : Str) (bs : List (List Field))
-    (hbs : ∀ b ∈ bs, ∀ f ∈ b, f.Ok) (fuel : Nat) (hfuel : bs.length < fuel) :
+    (hbs : ∀ b ∈ bs, ∀ f ∈ b, f.Ok) (hwp : ∀ b ∈ bs, WellPlaced false b) (fuel : Nat) (hfuel : bs.length < fuel) :
     processLinkFile dirSel base none fuel (renderFile bs) = some (bs.filterMap (blockEntry dirSel base none)) :=
-  processLinkFile_blocks dirSel base bs hbs fuel hfuel
+  processLinkFile_blocks dirSel base bs hbs hwp fuel hfuel
 
 open Pyg.Umn in
 /-- the fuel the directory handler's model passes (`lines + 1`) is enough -/
 theorem linkfile_reader_fuel_suffices (dirSel base : Str) (bs : List (List Field))
-    (hbs : ∀ b ∈ bs, ∀ f ∈ b, f.Ok) :
+    (hbs : ∀ b ∈ bs, ∀ f ∈ b, f.Ok) (hwp : ∀ b ∈ bs, WellPlaced false b) :
     processLinkFile dirSel base none ((renderFile bs).length + 1) (renderFile bs) =
       some (bs.filterMap (blockEntry dirSel base none)) := by
-  apply processLinkFile_blocks dirSel base bs hbs
+  apply processLinkFile_blocks dirSel base bs hbs hwp
+  clear hwp
   induction bs with
   | nil => simp
   | cons b bs ih =>
@@ -315,10 +317,11 @@ theorem linkfile_reader_fuel_suffices (dirSel base : Str) (bs : List (List Field
 
 open Pyg.Umn in
 /-- a `.cap` file is one block about its own file -/
-theorem cap_file_is_one_block (dirSel base sel : Str) (fs : List Field) (hfs : ∀ f ∈ fs, f.Ok) (fuel : Nat) :
+theorem cap_file_is_one_block (dirSel base sel : Str) (fs : List Field) (hfs : ∀ f ∈ fs, f.Ok)
+    (hw : WellPlaced true fs) (fuel : Nat) :
     processLinkFile dirSel base (some sel) (fuel + 1) (renderFields fs) =
       some ((blockEntry dirSel base (some sel) fs).toList) :=
-  processLinkFile_cap dirSel base sel fs hfs fuel
+  processLinkFile_cap dirSel base sel fs hfs hw fuel
 
 open Pyg.Umn in
 /-- a block without `Path=` in a `.Links` file yields nothing; one in a `.cap` file always yields its entry -/
@@ -354,28 +357,30 @@ theorem field_order_irrelevant (dirSel base : Str) (cap : Option Str) (fs gs : L
     · exact (apply_comm base z y x (Or.inr h)).symm
 
 open Pyg.Umn in
-/-- of two lines with the same key (other than `Path=`, which also raises flags) the later one counts -/
+/-- of two lines with the same key (other than `Path=`, which also raises flags, and `Abstract=`, whose empty value
+    sets nothing) the later one counts -/
 theorem later_line_wins (base : Str) (st : LinkState) (f g : Field) (h : f.key = g.key) (h0 : f.key ≠ 0)
-    (hp : f.key ≠ 3) : g.apply base (f.apply base st) = g.apply base st :=
-  apply_later_wins base st f g h h0 hp
+    (hp : f.key ≠ 3) (ha : f.key ≠ 7) : g.apply base (f.apply base st) = g.apply base st :=
+  apply_later_wins base st f g h h0 hp ha
 
 open Pyg.Umn in
 /-- through the directory handler: a dot file of a UMN directory that passes the ignore pattern contributes exactly the
     entries of its blocks, in file order -/
 theorem link_file_member_contributes_its_blocks (c : DirCfg) (hu : c.umn = true) (dirSel base : Str) (ch : Child)
     (hdot : ch.name.head? = some 46) (hnd : ch.isDir = false) (hig : reSearch c.ignore (base ++ [47] ++ ch.name) = false)
-    (bs : List (List Field)) (hbs : ∀ b ∈ bs, ∀ f ∈ b, f.Ok) (hl : ch.lines = some (renderFile bs)) :
+    (bs : List (List Field)) (hbs : ∀ b ∈ bs, ∀ f ∈ b, f.Ok) (hwp : ∀ b ∈ bs, WellPlaced false b)
+    (hl : ch.lines = some (renderFile bs)) :
     linksOf c dirSel base ch = some (bs.filterMap (blockEntry dirSel base none)) := by
   unfold linksOf
   simp only [hu, hig, hdot, hnd, hl, Bool.not_false, Bool.and_self, decide_true, if_true]
-  exact linkfile_reader_fuel_suffices dirSel base bs hbs
+  exact linkfile_reader_fuel_suffices dirSel base bs hbs hwp
 
 open Pyg.Umn in
 /-- through the directory handler: a `.cap` file of well-formed lines overrides exactly the fields its lines set
     (`mergeEntries` with the block's entry), or hides the file when it says `Type=X` / `Type=-` -/
 theorem cap_file_overrides_by_its_fields (c : DirCfg) (hu : c.umn = true) (hx : c.extstrip = lit "none") (dirSel base : Str)
     (ch : Child) (e0 : Entry) (isf : Bool) (he : ch.entry = some (e0, isf))
-    (fs : List Field) (hfs : ∀ f ∈ fs, f.Ok) (hc : ch.cap = some (renderFields fs)) :
+    (fs : List Field) (hfs : ∀ f ∈ fs, f.Ok) (hw : WellPlaced true fs) (hc : ch.cap = some (renderFields fs)) :
     ∃ ci, blockEntry dirSel base (some e0.selector) fs = some ci ∧
       childEntry c dirSel base ch =
         (if ci.e.type == some (lit "X") || ci.e.type == some (lit "-") then some none
@@ -385,22 +390,26 @@ theorem cap_file_overrides_by_its_fields (c : DirCfg) (hu : c.umn = true) (hx : 
     unfold blockEntry finishEntry; simp [hd]
   refine ⟨ci, hci, ?_⟩
   unfold childEntry
-  have hp := cap_file_is_one_block dirSel base e0.selector fs hfs (renderFields fs).length
+  have hp := cap_file_is_one_block dirSel base e0.selector fs hfs hw (renderFields fs).length
   simp only [he, hu, hx, hc, Bool.not_true, Bool.false_eq_true, if_false, bne_self_eq_false, Bool.false_and, hp, hci,
     Option.toList_some]
 
 open Pyg.Umn in
 /-- the manual's sample entry is such a file (the hypotheses are met and the text is the manual's) -/
 example :
-    let b1 : List Field := [.name (lit "Cheese Ball Recipes"), .numb 1, .type 49, .portPlus, .path (lit "/Moo/Cheesy"), .hostPlus]
-    let b2 : List Field := [.name (lit "relative one"), .path (lit "sub/../x"), .type 48]
+    let b1 : List Field := [.comment (lit " a comment"), .name (lit "Cheese Ball Recipes"), .numb 1, .type 49, .portPlus,
+                            .path (lit "/Moo/Cheesy"), .hostPlus]
+    let b2 : List Field := [.name (lit "relative one"), .path (lit "sub/../x"), .type 48, .abstract (lit "About x")]
     renderFile [b1, b2] =
-      [lit "Name=Cheese Ball Recipes\n", lit "Numb=1\n", lit "Type=1\n", lit "Port=+\n", lit "Path=/Moo/Cheesy\n",
-       lit "Host=+\n", lit "\n", lit "Name=relative one\n", lit "Path=sub/../x\n", lit "Type=0\n", lit "\n"] ∧
+      [lit "# a comment\n", lit "Name=Cheese Ball Recipes\n", lit "Numb=1\n", lit "Type=1\n", lit "Port=+\n", lit "Path=/Moo/Cheesy\n",
+       lit "Host=+\n", lit "\n", lit "Name=relative one\n", lit "Path=sub/../x\n", lit "Type=0\n", lit "Abstract=About x\n", lit "\n"] ∧
+    WellPlaced false b1 ∧ WellPlaced false b2 ∧
     [b1, b2].filterMap (blockEntry (lit "/dir") (lit "/dir") none) =
       [{ e := { selector := lit "/Moo/Cheesy", name := some (lit "Cheese Ball Recipes"), num := some 1, type := some (lit "1") } },
-       { e := { selector := lit "/dir/x", name := some (lit "relative one"), num := none, type := some (lit "0") },
-         needsabspath := true }] := by decide +kernel
+       { e := { selector := lit "/dir/x", name := some (lit "relative one"), num := none, type := some (lit "0"),
+                ea := [(lit "ABSTRACT", lit "About x")] },
+         needsabspath := true }] := by
+  refine ⟨by decide +kernel, by simp [WellPlaced], by simp [WellPlaced], by decide +kernel⟩
 
 
 end Pyg.Props.C08
